@@ -1,4 +1,5 @@
 mod checks_crash;
+mod checks_outage;
 mod checks_pure;
 mod checks_s;
 mod checks_t;
@@ -24,6 +25,7 @@ fn main() {
             Some("X") => checks_pure::c19_replay(&v),
             _ if v["replay"]["engine"].as_str() == Some("crash") => checks_crash::replay(&v),
             _ if v["replay"]["engine"].as_str() == Some("S") => checks_s::replay(&v),
+            _ if v["replay"]["engine"].as_str() == Some("outage") => checks_outage::replay(&v),
             _ => {
                 eprintln!("no replayer for this file");
                 2
@@ -44,6 +46,7 @@ fn main() {
         "C09" => checks_t::c09(a.tier),
         "C10" => checks_s::c10(a.tier),
         "C11" => checks_s::c11(a.tier),
+        "C12" => checks_outage::c12(a.tier),
         "C17" => checks_pure::c17(a.tier),
         "C19" => checks_pure::c19(a.tier),
         "C20" => checks_pure::c20(a.tier),
